@@ -207,6 +207,32 @@ def run(ctx):
             n_amb += 1
             ctx.check(A.never_after(prr, nd_edges, b), "C11.7", "parse_rr:ttl-iff-digits#%d" % n_amb, "token 0 is read as a TTL only if all its characters are digits",
                       "token 0 can be read as a TTL although it contains a non-digit (a name such as `host1` would be rejected)", prr.loc(b))
+    # the class token is skipped, never parsed: a token that compared equal to "IN" is not handed to the name / TTL parsers
+    def tok_index(x):
+        for y in A.walk(x):
+            if y[0] == "call" and y[1].endswith("::index") and A.path_str(y[2][0]) == "param4" and A.peel(y[2][1])[0] == "const":
+                return A.peel(y[2][1])[2]
+        return None
+    n_cls = 0
+    for b, t in prr.calls():
+        n_ = t.get("callee") or ""
+        if n_.endswith("deserialise::parse_u32") or n_.endswith("deserialise::parse_domain_or_wildcard"):
+            arg = prrr.call_expr(t, b)[2][-1]
+            k = tok_index(arg)
+            if k is None:
+                continue
+            def is_class(fc, k=k):
+                if fc[0] != "cmp" or fc[1] != "Eq":
+                    return False
+                for x, y in ((fc[2], fc[3]), (fc[3], fc[2])):
+                    py = A.peel(y)
+                    if py[0] == "const" and py[2] == "IN" and tok_index(x) == k:
+                        return True
+                return False
+            n_cls += 1
+            ctx.check(not prc.guarded(b, is_class)[0], "C11.7", "parse_rr:class-not-parsed@%d#%d" % (k, n_cls), "a token equal to \"IN\" is the class, it is not parsed as a name or TTL",
+                      "token %d is handed to %s in the branch where it equals \"IN\"" % (k, A.short(n_)), prr.loc(b))
+    ctx.floor("C11.7", "name / TTL parses of a positional token", n_cls, 6)
     ctx.floor("C11.7", "places where token 0 is read as a TTL", n_amb, 2)
     ctx.floor("C11.7", "per-character digit tests of token 0", len(nd_edges), 2)
 
